@@ -7,6 +7,8 @@ mod pull;
 mod puppet;
 mod report;
 mod rng;
+mod run_diff;
+mod run_indep;
 mod run_pull;
 mod run_sched;
 mod run_vclock;
@@ -90,6 +92,9 @@ fn main() {
     match cmd.as_str() {
         "check" => std::process::exit(check(&opts)),
         "replay" => std::process::exit(replay(&opts)),
+        "digest" => std::process::exit(run_diff::digest_main(&opts, false)),
+        "digest-sub" => std::process::exit(run_diff::digest_main(&opts, true)),
+        "trace" => std::process::exit(run_diff::trace_main(&opts, &opts.replay_file.clone().unwrap_or_default())),
         _ => {
             eprintln!("usage: cbverif check --prop <ID> [--tier quick|thorough] [--seed N] | replay --file <path>");
             std::process::exit(2);
@@ -111,6 +116,16 @@ fn check(o: &Opts) -> i32 {
                 engines.push("E3-vclock");
                 run_vclock::run(o, &mut rep, 4);
             }
+        },
+        "C13" => {
+            engines.push("E1-seq (three executions per case)");
+            run_indep::run(o, &mut rep);
+            engines.push("E3-vclock");
+            run_vclock::run(o, &mut rep, 4);
+        },
+        "C20" => {
+            engines.push("E6-diff");
+            run_diff::run(o, &mut rep);
         },
         "C16" => {
             engines.push("E3-vclock");
@@ -316,6 +331,8 @@ fn replay(o: &Opts) -> i32 {
         Some("E4") | Some("E4e") => run_sched::replay(o, &parts),
         Some("E2") => run_pull::replay(o, &parts),
         Some("E3") => run_vclock::replay(o, &parts),
+        Some("E1i") => run_indep::replay(o, &parts),
+        Some("E6") => run_diff::replay(o, &parts),
         _ => {
             eprintln!("unknown engine in case id {}", id);
             2
